@@ -834,6 +834,8 @@ def main(tier, replay=None):
     proof_coverage(chk, ob, 'make -f Makefile.coq -k Props/Properties_C17.vo (coqc 8.16.1, full .vo) + Print Assumptions',
                    ['Coq 8.16.1 kernel incl. vm_compute (examples/witnesses only)',
                     'hand model coq/Split/SplitModel.v of cmdline/parity.c (split_find, read/write addressing, fill loop, chsize) and of the dropped-split rule of state.c, tied by correspondence only',
+                    'harness/gen/splitc.py (parity_split_find of parity.c -> Gen/SplitProgs.v on every run: conditions and update parsed, loop frame token-recognised; '
+                    '*offset is a Z, the recorded sizes are N; proved equal to SplitModel.split_find_z in Props/Properties_C17_splitc.v)',
                     'extraction (ExtrOcamlBasic only) + ocaml/C17/driver.ml', 'harness/c/c17_drv.c (#includes the working tree parity.c)',
                     'file system: ftruncate to a smaller size never fails, a file extended by ftruncate/fallocate/pwrite reads as zeros, pwrite/pread are all-or-nothing',
                     'growth oracle: fill_maximal assumes a monotone oracle (true for --test-parity-limit; a real full disk is assumed monotone); the refinement theorems hold for any oracle',
@@ -1060,10 +1062,11 @@ def main(tier, replay=None):
         d = drift_cases[0]
         chk.violation('drift', 'MODEL-DRIFT: extracted model and parity.c disagree on %d generated cases although C satisfies the property oracles there; first: %s' % (len(drift_cases), d['case_line'][:160]),
                       {'cases': drift_cases[:10]}, no_input=True)
-    if ob['failed'] and not chk.violations:
-        chk.violation('obligation', 'proof obligation of C17 no longer checks: %s' % ob['failed'][0],
-                      {'theorem_file': 'coq/Props/Properties_C17.v', 'failed': ob['failed'], 'log_tail': ob['log'][-1500:],
-                       'search': 'generators run with x%d budget, no concrete failing input' % mult}, no_input=True)
+    if ob['failed']:
+        import obname
+        chk.violation('obligation', obname.obligation_text(ob, 'C17'),
+                      {'theorem_files': ['coq/Props/Properties_C17.v', 'coq/Props/Properties_C17_splitc.v'], 'failed': ob['failed'], 'log_tail': ob['log'][-1500:],
+                       'search': 'generators run with x%d budget, %d violations with a concrete input' % (mult, len(chk.violations))}, no_input=not chk.violations)
 
     ev = stats['find'] + stats['hbit'] + stats['limit'] + stats['chsize'] + stats['ops'] + cstats['level_checks']
     chk.cov.update({'evaluations': ev,
